@@ -13,7 +13,7 @@
    GATE: C15_gate (kernel-abstract).  The model of fit is tied to the
    implementation on every run by RunICVI.ifcheck. *)
 From Coq Require Import List Bool Arith Reals.
-From ART Require Import Num NumR Vec Search Kernel BaseArt ICVI ICVI_R VecR ICVI_full ICVI_switch ICVIFuzzy ICVI_fit CVI_gate ICVI_remove ICVI_remove_inv.
+From ART Require Import Num NumR Vec Search Kernel BaseArt ICVI ICVI_R VecR ICVI_full ICVI_switch ICVIFuzzy ICVI_fit CVI_gate ICVI_remove ICVI_remove_inv ICVI_ops3.
 Import ListNotations.
 Open Scope R_scope.
 
@@ -127,6 +127,10 @@ Theorem C15_remove_sample_tracks_the_batch_index :
     exists p D', @remove_sample RN s x l = Some p /\ Permutation.Permutation D (D' ++ [(x, l)]) /\
               Struct d (@update RN s p) D' /\ @batch_ch RN D' d = Some (h_crit (@update RN s p)).
 Proof. exact remove_sample_inv. Qed.
+Theorem C15_any_permitted_sequence_with_removals_tracks_the_batch_index :
+  forall d (ops : list iop3), all_permitted3 d [] ops ->
+    exists s D, run_ops3 ops (@ch_init RN d, []) = Some (s, D) /\ @batch_ch RN D d = Some (h_crit s).
+Proof. exact icvi_tracks_batch_index_with_removals. Qed.
 Print Assumptions C15_remove_sample_tracks_the_batch_index.
 Print Assumptions C15_adds_track_the_batch_index.
 Print Assumptions C15_any_permitted_sequence_tracks_the_batch_index.
